@@ -25,6 +25,7 @@ type ClientOpts struct {
 	NoNotify         bool          // do not install OnNotify
 	Spin             int
 	Validator        func([]byte) error
+	FreshRecvBuf     bool // hand out a fresh slice per Recv (default: one reused, scribbled buffer)
 }
 
 // ClientRig is a real jrpc2.Client on one end of a vchan pair and a raw
@@ -41,6 +42,10 @@ type ClientRig struct {
 
 	mu  sync.Mutex
 	out [][]byte
+
+	// Relabel, if set, is applied to every response a Call returns:
+	// rsp.SetID(Relabel(tag)) — what a proxy such as jhttp.Bridge does.
+	Relabel func(tag string) string
 }
 
 // NewClientRig builds the rig and starts the client.
@@ -50,6 +55,7 @@ func NewClientRig(c *vt.Ctx, ctrl *sched.Controller, o ClientOpts) *ClientRig {
 	r.Mon = &Mon{C: c, Log: log, FailOnDiscipline: o.FailOnDiscipline}
 	r.End, r.Peer = vchan.NewPair("cli", "srv", r.Mon)
 	r.End.PipeLike = o.PipeLike
+	r.End.ReuseRecvBuf = !o.FreshRecvBuf
 	for _, f := range o.Faults {
 		r.End.AddFault(f)
 	}
@@ -133,6 +139,9 @@ func (r *ClientRig) GoCall(tag string, ctx context.Context, method string, param
 	r.Log.Add("api.call", tag, method)
 	go func() {
 		rsp, err := r.Cli.Call(ctx, method, params)
+		if rsp != nil && r.Relabel != nil {
+			rsp.SetID(r.Relabel(tag))
+		}
 		r.Log.Add("api.ret", tag, DescribeResp(rsp, err))
 	}()
 }
